@@ -1423,99 +1423,161 @@ func ruleDotRHS(c *Ctx) *RuleResult {
 }
 
 // P-SLICE: the slice bracket accepts exactly [start]:[stop][:[step]].
+// colonFlow: forward must-fact over fn "a colon was seen at lookahead 0 or 1
+// and the cursor has not moved since": set on the edge of a lookahead(k) ==
+// tColon test on which the test holds (true edge of ==, false edge of !=),
+// cleared by any cursor-moving call, joined by AND.
+func (c *Ctx) colonFlow(caller *ssa.Function) (map[*ssa.BasicBlock]bool, func(*ssa.BasicBlock, int) bool, func(*ssa.BasicBlock, ssa.Instruction) bool) {
+	colonEdge := func(b *ssa.BasicBlock, si int) bool {
+		ifi := blockIf(b)
+		if ifi == nil {
+			return false
+		}
+		cond := ifi.Cond
+		neg := false
+		if u, isU := cond.(*ssa.UnOp); isU && u.Op == token.NOT {
+			cond, neg = u.X, true
+		}
+		bo, isBo := cond.(*ssa.BinOp)
+		if !isBo || (bo.Op != token.EQL && bo.Op != token.NEQ) {
+			return false
+		}
+		x, y := bo.X, bo.Y
+		if _, isK := constInt(x); isK {
+			x, y = y, x
+		}
+		k, isK := constInt(y)
+		la, isCall := x.(*ssa.Call)
+		if !isK || !isCall || k != c.tok("tColon") || staticCallee(la) != c.A.Lookahead {
+			return false
+		}
+		holds := 0
+		if bo.Op == token.NEQ {
+			holds = 1
+		}
+		if neg {
+			holds = 1 - holds
+		}
+		return si == holds
+	}
+	moves := func(b *ssa.BasicBlock, upto ssa.Instruction) bool {
+		for _, in := range b.Instrs {
+			if in == upto {
+				return false
+			}
+			if cl, isCall := in.(*ssa.Call); isCall {
+				sc := staticCallee(cl)
+				if sc == nil {
+					if _, isB := cl.Call.Value.(*ssa.Builtin); isB {
+						continue
+					}
+					return true
+				}
+				if c.cursorMover(sc) {
+					return true
+				}
+			}
+		}
+		return false
+	}
+	in := map[*ssa.BasicBlock]bool{}
+	for _, b := range caller.Blocks {
+		in[b] = b != caller.Blocks[0]
+	}
+	for changed := true; changed; {
+		changed = false
+		for _, b := range caller.Blocks {
+			if b == caller.Blocks[0] {
+				continue
+			}
+			v := true
+			for _, pb := range b.Preds {
+				for si, sb := range pb.Succs {
+					if sb != b {
+						continue
+					}
+					if !(colonEdge(pb, si) || (in[pb] && !moves(pb, nil))) {
+						v = false
+					}
+				}
+			}
+			if v != in[b] {
+				in[b] = v
+				changed = true
+			}
+		}
+	}
+	return in, colonEdge, moves
+}
+
 func ruleSliceGrammar(c *Ctx) *RuleResult {
-	r := &RuleResult{Doc: "parseSliceExpression: every path to a success return spells number? : number? (: number?)? ] — at most two colons, no two numbers in a row (loop counter tracked as a small integer)", Floor: 1}
+	r := &RuleResult{Doc: "the slice bracket: every path from where a colon is known to be ahead to a success return spells number? : number? (: number?)? ] — at most two colons, no two numbers in a row (loop counter tracked as a small integer); the slice code is entered only with a colon at lookahead 0 or 1", Floor: 1}
 	fn := c.nodeProducerFn("ASTSlice", "parseSliceExpression")
-	p := &plRun{c: c, fn: fn, spec: sliceSpec(c)}
-	p.explore(fn.Blocks[0], tokFact{})
-	c.reportPL(r, "slice|parseSliceExpression", p, fn.Pos())
-	// entry contract: every call is on the true edge of lookahead(0) == tColon || lookahead(1) == tColon
+	// the function may itself decide between index and slice (the colon test is
+	// inside it): then the slice grammar starts at the edges where the colon is known
+	inFn, colonEdgeFn, _ := c.colonFlow(fn)
+	var entries []*ssa.BasicBlock
+	seenE := map[*ssa.BasicBlock]bool{}
+	for _, b := range fn.Blocks {
+		for si, sb := range b.Succs {
+			if colonEdgeFn(b, si) && !seenE[sb] {
+				// follow the chain of `||` tests: the entry is where the fact holds on every way in
+				if inFn[sb] {
+					seenE[sb] = true
+					entries = append(entries, sb)
+				}
+			}
+		}
+	}
+	if len(entries) == 0 {
+		p := &plRun{c: c, fn: fn, spec: sliceSpec(c)}
+		p.explore(fn.Blocks[0], tokFact{})
+		c.reportPL(r, "slice|parseSliceExpression", p, fn.Pos())
+	} else {
+		p := &plRun{c: c, fn: fn, spec: sliceSpec(c)}
+		for _, e := range entries {
+			p.explore(e, tokFact{})
+		}
+		c.reportPL(r, "slice|parseSliceExpression", p, fn.Pos())
+		// the slice node is built only where the colon is known
+		r.Instances++
+		bad := ""
+		for _, b := range fn.Blocks {
+			for _, in := range b.Instrs {
+				st, ok := in.(*ssa.Store)
+				if !ok {
+					continue
+				}
+				fa, ok := st.Addr.(*ssa.FieldAddr)
+				if !ok || fa.Field != fNodeType || !c.isASTNodePtr(fa.X.Type()) {
+					continue
+				}
+				if k, ok := constInt(st.Val); ok && c.A.NTName[k] == "ASTSlice" {
+					reach := false
+					for _, e := range entries {
+						if e == b || e.Dominates(b) {
+							reach = true
+						}
+					}
+					if !reach {
+						bad = c.pos(st.Pos())
+					}
+				}
+			}
+		}
+		key := "slice-entry|" + fname(fn)
+		if bad == "" {
+			r.ok(key, c.pos(fn.Pos()), fname(fn), "the slice node is built only behind a lookahead(k) == colon test of the same function")
+		} else {
+			r.viol(key, bad, fname(fn), "a slice node can be built without a colon ahead: an index like [1] would become a slice")
+		}
+		return r
+	}
+	// entry contract: every call is on an edge where lookahead(0) == tColon || lookahead(1) == tColon holds
 	for _, caller := range allFuncs(c.SLib) {
 		for _, call := range callsTo(caller, fn) {
 			r.Instances++
-			// forward must-fact "a colon was seen at lookahead 0 or 1 and the
-			// cursor has not moved since": set on the edge of a lookahead(k) ==
-			// tColon test on which the test holds (true edge of ==, false edge
-			// of !=), cleared by any cursor-moving call, joined by AND.
-			colonEdge := func(b *ssa.BasicBlock, si int) bool {
-				ifi := blockIf(b)
-				if ifi == nil {
-					return false
-				}
-				cond := ifi.Cond
-				neg := false
-				if u, isU := cond.(*ssa.UnOp); isU && u.Op == token.NOT {
-					cond, neg = u.X, true
-				}
-				bo, isBo := cond.(*ssa.BinOp)
-				if !isBo || (bo.Op != token.EQL && bo.Op != token.NEQ) {
-					return false
-				}
-				x, y := bo.X, bo.Y
-				if _, isK := constInt(x); isK {
-					x, y = y, x
-				}
-				k, isK := constInt(y)
-				la, isCall := x.(*ssa.Call)
-				if !isK || !isCall || k != c.tok("tColon") || staticCallee(la) != c.A.Lookahead {
-					return false
-				}
-				holds := 0
-				if bo.Op == token.NEQ {
-					holds = 1
-				}
-				if neg {
-					holds = 1 - holds
-				}
-				return si == holds
-			}
-			moves := func(b *ssa.BasicBlock, upto ssa.Instruction) bool {
-				for _, in := range b.Instrs {
-					if in == upto {
-						return false
-					}
-					if cl, isCall := in.(*ssa.Call); isCall {
-						sc := staticCallee(cl)
-						if sc == nil {
-							if _, isB := cl.Call.Value.(*ssa.Builtin); isB {
-								continue
-							}
-							return true
-						}
-						if c.cursorMover(sc) {
-							return true
-						}
-					}
-				}
-				return false
-			}
-			in := map[*ssa.BasicBlock]bool{}
-			for _, b := range caller.Blocks {
-				in[b] = b != caller.Blocks[0]
-			}
-			for changed := true; changed; {
-				changed = false
-				for _, b := range caller.Blocks {
-					if b == caller.Blocks[0] {
-						continue
-					}
-					v := true
-					for _, pb := range b.Preds {
-						for si, sb := range pb.Succs {
-							if sb != b {
-								continue
-							}
-							if !(colonEdge(pb, si) || (in[pb] && !moves(pb, nil))) {
-								v = false
-							}
-						}
-					}
-					if v != in[b] {
-						in[b] = v
-						changed = true
-					}
-				}
-			}
+			in, _, moves := c.colonFlow(caller)
 			ok := in[call.Block()] && !moves(call.Block(), call)
 			key := "slice-entry|" + fname(caller)
 			if ok {
